@@ -49,11 +49,16 @@ Definition get_grid : list (Z * Z) :=
 
 (** What the harness saw after one command:
     [r]       error class of the call (nil / error / panic);
-    [ek]      which error: the harness classifies the error message by the
-              statement that produces it (1 "already initialized", 2 "invalid
-              hash algo", 3 "PCR n is not initialized", 4 "PCR n:alg is not
-              initialized", 5 "internal error ... != ..."; 0 when no error was
-              returned) -- the model's [ERR_*] codes;
+    [ek]      why the harness' REFERENCE TPM (written from the property text)
+              cannot execute the command, computed from its state and the
+              arguments only -- never from what the implementation returned, whose
+              contribution is [r] (error / no error): 1 startup on a started
+              TPM, 2 the identifier is not a hash algorithm, 3 TPM not started
+              or no such PCR, 4 the PCR has no bank for the algorithm, 5 (after
+              PCRValues.Set only) the bank does not hold a value of the
+              algorithm's size; 0 when it executes the command.  These are the
+              model's [ERR_*] codes: the check is that model and reference TPM
+              agree on the reason;
     [dgets]   [PCRValues.Get] (error vs bytes) at every point of [get_grid] whose
               observation differs from the one after the previous command
               (index into [get_grid], new observation); the points not listed
@@ -157,15 +162,16 @@ Fixpoint gets_match (i : Z) (grid : list (Z * Z)) (dgets : list (Z * obs (list Z
   end.
 
 (** SHA-3 identifiers (39..41): whether [tpm2.Algorithm.Hash] accepts them
-    depends on what is linked into the binary; when it does not, the error comes
-    from acquireHasher ("invalid hash algo") instead of one line later *)
+    depends on what is linked into the binary; when it does not, they are not
+    hash algorithms for the reference TPM (reason 2) while the model's table
+    [hsize] lists them (reason 3 or 4) *)
 Definition sha3_cmd (c : cmd) : bool :=
   match c with
   | Extend _ a _ => (39 <=? a) && (a <=? 41)
   | _ => false
   end.
 
-(** the error was produced by the statement the model says *)
+(** the model refuses the command for the reason the reference TPM gives *)
 Definition ek_matches (sha3 : bool) (ek : Z) (r : outcome unit) : bool :=
   match r with
   | Err e => (ek =? e) || (sha3 && (ek =? ERR_BAD_ALG))
